@@ -21,7 +21,7 @@ _BINOPS = {ast.Add: "+", ast.Sub: "-", ast.Mult: "*", ast.Div: "/", ast.FloorDiv
 _CMPOPS = {ast.Eq: "==", ast.NotEq: "!=", ast.Lt: "<", ast.LtE: "<=", ast.Gt: ">", ast.GtE: ">=", ast.Is: "is",
            ast.IsNot: "is not", ast.In: "in", ast.NotIn: "not in"}
 
-NP_TYPES = {"integer": "integer", "floating": "floating"}
+NP_TYPES = {"integer": "integer", "floating": "floating", "unsignedinteger": "unsignedinteger", "signedinteger": "signedinteger"}
 NP_DTYPES = {"int64": "int", "float64": "real", "bool_": "bool"}
 
 
